@@ -359,6 +359,9 @@ class Scripted(af.Analysis):
     def visualize_before_fit(self, paths, model):
         self.log.append(("visualize_before_fit", self._folder(paths), int(model.prior_count)))
 
+    def profile_log_likelihood_function(self, paths, instance):
+        self.log.append(("profile", self._folder(paths), self.x_of(instance)))
+
     def save_attributes(self, paths):
         self.log.append(("save_attributes", self._folder(paths)))
 
@@ -533,6 +536,263 @@ def gen_schedule(rng, n_proc, n_analyses):
 
 
 # ---------------------------------------------------------------------------------------------
+# operand structure: with_free_parameters at any position of the expression (model: AF.Combined.buildF)
+
+
+def fexpr_has_free(e):
+    if "leaf" in e:
+        return False
+    if "free" in e:
+        return True
+    return fexpr_has_free(e["add"][0]) or fexpr_has_free(e["add"][1])
+
+
+def fexpr_erase(e):
+    if "leaf" in e:
+        return e
+    if "free" in e:
+        return fexpr_erase(e["of"])
+    return {"add": [fexpr_erase(e["add"][0]), fexpr_erase(e["add"][1])]}
+
+
+def fexpr_live(e):
+    """the declarations in force (not replaced by a later with_free_parameters), left to right"""
+    if "leaf" in e:
+        return []
+    if "free" in e:
+        return [e["free"]]
+    return fexpr_live(e["add"][0]) + fexpr_live(e["add"][1])
+
+
+def fexpr_text(e):
+    if "leaf" in e:
+        return f"a{e['leaf']}"
+    if "free" in e:
+        return fexpr_text(e["of"]) + ".with_free_parameters(" + ", ".join(
+            ".".join(f.get("prior_at") or f.get("part") or ["<foreign>"]) for f in e["free"]) + ")"
+    return "(" + fexpr_text(e["add"][0]) + " + " + fexpr_text(e["add"][1]) + ")"
+
+
+def resolve_fexpr(e, model, live_args):
+    """real arguments of every declaration (kept by identity of the spec list) and the wire form for the driver"""
+    if "leaf" in e:
+        return e
+    if "free" in e:
+        w = resolve_fexpr(e["of"], model, live_args)
+        args, wire = resolve_free(model, e["free"])
+        live_args[id(e["free"])] = (args, wire)
+        return {"free": wire, "of": w}
+    return {"add": [resolve_fexpr(e["add"][0], model, live_args), resolve_fexpr(e["add"][1], model, live_args)]}
+
+
+def build_fexpr(e, leaves, live_args):
+    """evaluate the expression on the real code"""
+    if "leaf" in e:
+        return leaves[e["leaf"]]
+    if "free" in e:
+        return build_fexpr(e["of"], leaves, live_args).with_free_parameters(*live_args[id(e["free"])][0])
+    return build_fexpr(e["add"][0], leaves, live_args) + build_fexpr(e["add"][1], leaves, live_args)
+
+
+def fexpr_well_formed(e):
+    if "leaf" in e:
+        return True
+    if "free" in e:
+        return "leaf" not in fexpr_erase(e["of"]) and fexpr_well_formed(e["of"])
+    return fexpr_well_formed(e["add"][0]) and fexpr_well_formed(e["add"][1])
+
+
+def fexpr_build_failed(ctx, case, fx, fx_wire, node, flags, exc, replay):
+    """the real expression raised: the property fails unless with_free_parameters was called on a single
+    analysis (not a sum); the model must predict the same kind of exception"""
+    kind = type(exc).__name__
+    if fexpr_well_formed(fx):
+        ctx.fail("C15-free-operand", f"a sum with a free-parameter analysis as an operand raised {kind}: "
+                 + fexpr_text(fx), replay, str(exc)[:200])
+    else:
+        ctx.hit("fexpr:with-free-parameters-on-a-single-analysis")
+    if getattr(ctx, "lean", None) is None:  # the real-process route runs without the model
+        return
+    ans = ctx.lean.ask({"p": "C15", "cfg": {"drain": True, "map_idx": True, "new_idx": True,
+                                           "free_add": bool(flags.get("free_add", True))},
+                        "expr": {"leaf": 0}, "fexpr": fx_wire, "analyses": [], "comp": node, "history": []})
+    if "driver_error" in ans:
+        ctx.disagree("driver", replay, None, ans)
+    elif ans.get("build_error") != kind and fexpr_well_formed(fx) == bool(ans.get("well_formed")):
+        if not fexpr_well_formed(fx) or not flags.get("free_add", True):
+            ctx.disagree("C15.build_error", replay, kind, ans.get("build_error"))
+    elif fexpr_well_formed(fx) != bool(ans.get("well_formed")):
+        ctx.disagree("C15.well_formed", replay, fexpr_well_formed(fx), ans.get("well_formed"))
+    ctx.case({"fexpr": fx, "prog": case["program"], "raised": kind}, nontrivial=False)
+
+
+def add_fexpr(rng, case):
+    """turn a free-parameter case into one whose with_free_parameters calls sit anywhere in the expression"""
+    if case.get("mode") != "free" or "sum" in case["expr"] or not case.get("free"):
+        return case
+    if rng.random() < 0.45:
+        return case
+    specs = list(case["free"])
+    sums = []  # paths to the `add` nodes
+
+    def walk(e, path):
+        if "add" in e:
+            sums.append(path)
+            walk(e["add"][0], path + (0,))
+            walk(e["add"][1], path + (1,))
+
+    walk(case["expr"], ())
+    k = min(len(sums), len(specs), rng.choice([1, 1, 2, 2, 3]))
+    chosen = rng.sample(sums, k)
+    rng.shuffle(specs)
+    share = {c: [] for c in chosen}
+    for j, sp in enumerate(specs):
+        share[chosen[j % k]].append(sp)
+    leaf_free = rng.random() < 0.03  # with_free_parameters on a single analysis: AttributeError
+
+    def go(e, path):
+        if "leaf" in e:
+            if leaf_free:
+                return {"free": [dict(specs[0])], "of": e}
+            return e
+        out = {"add": [go(e["add"][0], path + (0,)), go(e["add"][1], path + (1,))]}
+        if path in share:
+            out = {"free": share[path], "of": out}
+            if rng.random() < 0.12:  # declared again: the later declaration replaces the earlier one
+                out = {"free": [dict(rng.choice(specs))], "of": out}
+        return out
+
+    case["fexpr"] = go(case["expr"], ())
+    return case
+
+
+def probe_free_add():
+    """finding flag: a FreeParameterAnalysis as an operand of + keeps its free parameters"""
+    try:
+        a, b, c, d = [Scripted(k, ["a"], 1.0, 0.0) for k in range(4)]
+        m = af.Model(VP1, a=af.UniformPrior(lower_limit=0.0, upper_limit=1.0))
+        x = (a + b).with_free_parameters(m.a) + c
+        y = (c + d) + (a + b).with_free_parameters(m.a)
+        return all(
+            len(z.analyses) == n and [int(p.id) for p in getattr(z, "free_parameters", [])] == [int(m.a.id)]
+            and z.modify_model(m).prior_count == n
+            for z, n in ((x, 3), (y, 4)))
+    except Exception:
+        return False
+
+
+# ---------------------------------------------------------------------------------------------
+# hooks forwarded to the analyses held (model: AF.Combined.hookCalls over the table regenerated from the source)
+
+
+class _HookResult:
+    """stands for a CombinedResult: iterable over / holding one tagged child result per analysis"""
+
+    def __init__(self, m):
+        self.tag = "whole"
+        self.child_results = []
+        for i in range(m):
+            r = _HookResult(0)
+            r.tag = i
+            self.child_results.append(r)
+
+    def __iter__(self):
+        return iter(self.child_results)
+
+    def __len__(self):
+        return len(self.child_results)
+
+
+def check_hooks(ctx, n, m):
+    """call every hook of the table on a real CombinedAnalysis of n recording analyses (no pool); m = items of the
+    zipped argument. Oracle: every output hook reaches every analysis once, child folder i / child result i for the
+    i-th; correspondence: the calls (analysis, folder, zipped item) in order = hookCalls of the row's route"""
+    import tables_c15
+
+    rows = tables_c15.table()
+    ans = ctx.lean.ask({"p": "C15", "kind": "hooks", "n": n, "m": m})
+    replay = {"hooks": {"n": n, "m": m}}
+    if "driver_error" in ans:
+        ctx.disagree("driver", replay, None, ans)
+        return
+    model_rows = {h["name"]: h for h in ans["hooks"]}
+    if sorted(model_rows) != sorted(r["name"] for r in rows):
+        ctx.disagree("C15.hook_table", replay, sorted(r["name"] for r in rows), sorted(model_rows))
+        return
+    log = []
+    parent = af.DirectoryPaths(name=f"c15hooks_{n}_{m}")
+    parent_folder = str(Path(parent.output_path).name)
+
+    def folder_of(paths):
+        try:
+            f = str(Path(paths.output_path).name)
+        except Exception:
+            return "?"
+        return None if f == parent_folder else folder_index(f)
+
+    def recorder(hname, argnames):
+        def rec(self, *a, **k):
+            bound = dict(zip(argnames, a))
+            bound.update(k)
+            res = bound.get("result")
+            log.append((hname, self.name, folder_of(bound.get("paths")) if "paths" in bound else None,
+                        res.tag if isinstance(res, _HookResult) and res.tag != "whole" else None))
+            return self if hname.startswith("modify_") else None
+
+        return rec
+
+    body = {r["name"]: recorder(r["name"], r["args"]) for r in rows if not r["shared"] and r["name"] != "log_likelihood_function"}
+    Rec = type("Rec", (af.Analysis,), body)
+    recs = []
+    for i in range(n):
+        a = Rec()
+        a.name = i
+        vis = {r["name"]: staticmethod((lambda h, i_, names: lambda *x, **k: log.append(
+            (h, i_, folder_of(dict(zip(names, x), **k).get("paths")), None)))(r["name"], i, r["args"]))
+            for r in rows if r["shared"] and r["origin"] == "Visualizer"}
+        a.Visualizer = type("RecVis", (), vis)
+        for r in rows:
+            if r["shared"] and r["origin"] == "Analysis":
+                setattr(a, r["name"], (lambda h, i_, names: lambda *x, **k: log.append(
+                    (h, i_, folder_of(dict(zip(names, x), **k).get("paths")), None)))(r["name"], i, r["args"]))
+        recs.append(a)
+    combined = CombinedAnalysis(*recs)
+    combined.n_cores = 1
+    values = {"paths": parent, "model": af.Model(VP1), "instance": VP1(a=1.0), "result": _HookResult(m),
+              "during_analysis": True, "analyses": recs}
+    for r in rows:
+        if r["name"] in ("log_likelihood_function", "with_model"):
+            continue
+        del log[:]
+        raised = None
+        try:
+            getattr(combined, r["name"])(**{a: values.get(a) for a in r["args"] if a != "analyses"})
+        except Exception as e:  # inherited hooks run the base class body on the combined analysis itself
+            raised = type(e).__name__
+        calls = [[c[1], c[2], c[3]] for c in log if c[0] == r["name"]]
+        mrow = model_rows[r["name"]]
+        ctx.hit("hook-route:" + (mrow["route"] if isinstance(mrow["route"], str) else "eachChild"))
+        output = r["takes_paths"] and not r["shared"] and not r["question"]
+        failed = False
+        if output and m >= n:
+            reached = sorted(c[0] for c in calls)
+            if reached != list(range(n)):
+                failed = True
+                ctx.fail("C15-hook-not-forwarded", f"{r['name']} of a combined analysis of {n} analyses reached the analyses "
+                         f"{reached} (each expected once)" + (f", raised {raised}" if raised else ""), replay)
+            for c in calls:
+                if isinstance(c[1], int) and c[1] != c[0]:
+                    failed = True
+                    ctx.fail("C15-folder-serial", f"{r['name']}: the analysis at position {c[0]} was given folder analysis_{c[1]}", replay)
+                if c[2] is not None and c[2] != c[0]:
+                    failed = True
+                    ctx.fail("C15-child-result", f"{r['name']}: the analysis at position {c[0]} was given child result {c[2]}", replay)
+        if not failed and calls != mrow["calls"]:
+            ctx.disagree("C15.hook_calls", {"hooks": {"n": n, "m": m, "hook": r["name"]}}, calls, mrow["calls"])
+    ctx.case({"hooks": [n, m]}, nontrivial=False)
+
+
+# ---------------------------------------------------------------------------------------------
 # case generation
 
 WS = [0.5, -0.5, 1.0, -1.0, 2.0, 0.25, 1.5, -3.0, 4.0]
@@ -610,8 +870,8 @@ def gen_case(rng, force_mode=None, force_cores=None):
     for h in history:
         if rng.random() < 0.3:
             h["fail"] = sorted(set(rng.randrange(n) for _ in range(rng.choice([1, 1, 2]))))
-    return {"expr": gen_expr(rng, n), "analyses": analyses, "program": prog, "mode": mode, "free": free,
-            "cores": cores, "history": history, "exact": exact}
+    return add_fexpr(rng, {"expr": gen_expr(rng, n), "analyses": analyses, "program": prog, "mode": mode, "free": free,
+                           "cores": cores, "history": history, "exact": exact})
 
 
 # ---------------------------------------------------------------------------------------------
@@ -722,6 +982,7 @@ def probe_flags():
         flags["map_idx"] = False
     finally:
         sched.shutdown()
+    flags["free_add"] = probe_free_add()
     return flags
 
 
@@ -785,9 +1046,21 @@ def one_case(ctx, case, label="gen", flags=None, deep=True, real=False):
     names = expr_leaves(case["expr"])
     n = len(names)
     free_wire = None
+    fx, fx_wire, fx_live = case.get("fexpr"), None, {}
     try:
-        combined = build_expr(case["expr"], leaves)
-        if mode == "free":
+        if fx is not None:
+            fx_wire = resolve_fexpr(fx, model, fx_live)
+            free_wire = [w for v in fx_live.values() for w in v[1]]
+            free_args = [a for spec in fexpr_live(fx) for a in fx_live[id(spec)][0]]
+            try:
+                combined = build_fexpr(fx, leaves, fx_live)
+            except Exception as e:
+                fexpr_build_failed(ctx, case, fx, fx_wire, node, flags, e, replay)
+                return
+            ctx.hit("fexpr:free-parameters-declared-inside" if "free" not in fx else "fexpr:outermost")
+        else:
+            combined = build_expr(case["expr"], leaves)
+        if mode == "free" and fx is None:
             free_args, free_wire = resolve_free(model, case["free"])
             # another free-parameter analysis made for the same model object before (declaring another parameter
             # free) is none of this one's business
@@ -817,6 +1090,13 @@ def one_case(ctx, case, label="gen", flags=None, deep=True, real=False):
         fail("C15-order", "the combined analysis does not hold exactly the analyses that were added",
              {"held": order, "added": names, "expr": expr_text(case["expr"])})
         return
+    n_free_held = len(getattr(combined, "free_parameters", None) or [])
+    if mode == "free" and n_free_held > 400:
+        # far more than any declaration made here can expand to (free parameters kept in shared state pile up with
+        # every analysis made; modify_model would draw a new prior for each of them, per analysis)
+        fail("C15-shared-parameter-freed", f"the free-parameter analysis holds {n_free_held} free parameters, "
+             "far more than were declared for it")
+        return
     try:
         fitted = combined.modify_model(model)
     except Exception as e:
@@ -827,6 +1107,10 @@ def one_case(ctx, case, label="gen", flags=None, deep=True, real=False):
     else:
         impl_mode = "free" if mode == "free" else "own"
     want_mode = "free" if mode == "free" else ("own" if own_models else "plain")
+    if fx is not None and fexpr_has_free(fx) and (impl_mode != "free" or not hasattr(combined, "free_parameters")):
+        fail("C15-free-operand", "free parameters declared for an operand of + are lost in the sum: " + fexpr_text(fx),
+             {"treated_as": impl_mode, "type": type(combined).__name__})
+        return
     if impl_mode != want_mode:
         fail("C15-own-model-ignored" if want_mode == "own" else "C15-mode",
              f"expected the combined analysis to treat the model as '{want_mode}', it treats it as '{impl_mode}'",
@@ -1061,8 +1345,9 @@ def one_case(ctx, case, label="gen", flags=None, deep=True, real=False):
         })
     analyses_wire.sort(key=lambda a: a["name"])
     req = {
-        "p": "C15", "cfg": {"drain": bool(flags["drain"]), "map_idx": bool(flags["map_idx"]), "new_idx": bool(flags["new_idx"])},
-        "expr": expr_wire(case["expr"]), "analyses": analyses_wire, "comp": node,
+        "p": "C15", "cfg": {"drain": bool(flags["drain"]), "map_idx": bool(flags["map_idx"]), "new_idx": bool(flags["new_idx"]),
+                            "free_add": bool(flags.get("free_add", True))},
+        "expr": expr_wire(case["expr"]), "fexpr": fx_wire, "analyses": analyses_wire, "comp": node,
         "free": free_wire, "base": base, "cores": cores,
         "history": [{"v": [f2h(x) for x in h["v"]], "sched": (scheds[k] if k < len(scheds) else [])} for k, h in enumerate(hist)],
     }
@@ -1070,8 +1355,13 @@ def one_case(ctx, case, label="gen", flags=None, deep=True, real=False):
     if "driver_error" in ans:
         ctx.disagree("driver", replay, None, ans)
         return
+    if "build_error" in ans:
+        ctx.disagree("C15.build_error", replay, "built", ans["build_error"])
+        ctx._c15_folders = None
+        return
     if ans["order"] != order:
         dis("C15.order", order, ans["order"])
+    check_operand_structure(dis, ans, order, names, combined, fx, impl_mode)
     if ans["mode"] != impl_mode:
         dis("C15.mode", impl_mode, ans["mode"])
     else:
@@ -1130,8 +1420,8 @@ def one_case(ctx, case, label="gen", flags=None, deep=True, real=False):
     distinct_sub = impl_mode != "plain" and len(set(map(f2h, exp_x[0]))) >= 2
     nontrivial = n >= 3 and (pooled_recovery or distinct_sub)
     ctx.case({"expr": case["expr"], "an": case["analyses"], "prog": case["program"], "mode": mode, "free": case.get("free"),
-              "cores": cores, "hist": case["history"]}, nontrivial=nontrivial,
-             sample={"expr": expr_text(case["expr"]), "mode": impl_mode, "cores": cores, "evaluations": len(hist),
+              "cores": cores, "hist": case["history"], **({"fx": fx} if fx is not None else {})}, nontrivial=nontrivial,
+             sample={"expr": fexpr_text(fx) if fx is not None else expr_text(case["expr"]), "mode": impl_mode, "cores": cores, "evaluations": len(hist),
                      "serial": [o.get("raises") or h2f(o["v"]) for o in impl_serial if "stuck" not in o][:4],
                      "parameters": impl_count})
     ctx.hit("mode:" + impl_mode)
@@ -1149,6 +1439,25 @@ def one_case(ctx, case, label="gen", flags=None, deep=True, real=False):
         ctx.hit("order-differs-from-written")
     if "sum" in case["expr"]:
         ctx.hit("builtin-sum")
+
+
+def check_operand_structure(dis, ans, order, names, combined, fx, impl_mode):
+    """correspondence clauses of AF.Combined.normalize / inOrder / buildF / declaredFree"""
+    if ans.get("normal_leaves") != order:
+        dis("C15.normal_form", order, ans.get("normal_leaves"))
+    if len(set(names)) == len(names) and bool(ans.get("in_order")) != (order == names):
+        dis("C15.in_order", order == names, ans.get("in_order"))
+    if impl_mode == "free":
+        try:
+            impl_free = [int(p.id) for p in combined.free_parameters]
+        except Exception as e:
+            impl_free = repr(e)
+        if ans.get("free_ids") != impl_free:
+            dis("C15.free_ids", impl_free, ans.get("free_ids"))
+        if fx is not None and ans.get("declared") != impl_free:
+            dis("C15.declared_free", impl_free, ans.get("declared"))
+    if fx is not None and not ans.get("well_formed"):
+        dis("C15.well_formed", True, ans.get("well_formed"))
 
 
 class _Alarm(BaseException):
@@ -1216,6 +1525,35 @@ def run_real_pool(ctx, case, combined, scripted, order, hist, real_inst, exp_x, 
             shutil.rmtree(out_dir, ignore_errors=True)
 
 
+def check_profile(combined, scripted, order, inst, exp_x, fail):
+    """profile_log_likelihood_function: every analysis once, in its own folder, on its own (sub-)instance"""
+    for s in scripted.values():
+        s.log.clear()
+    try:
+        combined.profile_log_likelihood_function(af.DirectoryPaths(), inst)
+    except Exception as e:
+        fail("C15-profile-sub-instance", f"profile_log_likelihood_function of the combined analysis raised {type(e).__name__}",
+             str(e)[:200])
+        return
+    from autofit.non_linear.analysis.model_analysis import ModelAnalysis
+
+    for i in range(len(order)):
+        a, own = combined.analyses[i], False
+        while a is not None and not isinstance(a, Scripted):
+            own = own or isinstance(a, ModelAnalysis)
+            a = a.__dict__.get("analysis")
+        if own:  # ModelAnalysis does not forward the hooks Analysis defines (recorded in the claim: outside the domain)
+            continue
+        ev = [e for e in scripted[order[i]].log if e[0] == "profile"]
+        if len(ev) != 1:
+            fail("C15-hook-not-forwarded", f"profile_log_likelihood_function reached the analysis at position {i} {len(ev)} times")
+        elif folder_index(ev[0][1]) != i:
+            fail("C15-folder-serial", f"profile_log_likelihood_function: the analysis at position {i} was given folder {ev[0][1]}")
+        elif f2h(ev[0][2]) != f2h(exp_x[i]):
+            fail("C15-profile-sub-instance", "profile_log_likelihood_function gave an analysis a different (sub-)instance than its own",
+                 {"position": i})
+
+
 def check_folders(ctx, combined, scripted, order, inst, exp_x, sched, fail, route):
     """child folders: `visualize` through the serial loop or through `AnalysisPool.map`"""
     n = len(order)
@@ -1247,6 +1585,8 @@ def check_folders(ctx, combined, scripted, order, inst, exp_x, sched, fail, rout
                  f"the output folder used by the analysis at position {i} ({route}) is not analysis_{i}", {"folder": ev[0][1]})
         if f2h(ev[0][2]) != f2h(exp_x[i]):
             fail("C15-sub-instance", f"visualize ({route}) gave an analysis a different (sub-)instance than its own", {"position": i})
+    if route == "serial":
+        check_profile(combined, scripted, order, inst, exp_x, fail)
     st = getattr(ctx, "_c15_folders", None) or {}
     st[route] = folders
     if route == "pool":
@@ -1364,8 +1704,9 @@ def run(ctx):
         "by a schedule, OS-level preemption inside a queue operation is not modelled",
         "80% of the cases use dyadic numbers so that every order of summation is exact and pooled values are compared "
         "bit-exactly; the others are compared at 1e-11 relative (pool) / bit-exactly (serial)",
-        "with_free_parameters(...) is the outermost operation (a FreeParameterAnalysis used as an operand of + raises "
-        "TypeError or loses its free parameters: outside the modelled domain, recorded in the claim)",
+        "with_free_parameters(...) may sit at any position of the expression (a FreeParameterAnalysis as an operand of +: "
+        "repaired behaviour fixes/C15-free-parameters-survive-add.patch, finding flag free_add); it is only called on sums "
+        "(on a single analysis: AttributeError, compared with the model, not a property failure)",
     ]
     flags = probe_flags()
     ctx.notes["flags"] = flags
@@ -1376,6 +1717,8 @@ def run(ctx):
         one_case(ctx, json.loads(f.read_text()), label=f.name)
     ctx.notes["known_witness_not_reproduced"] = sorted(
         k["id"] for k in ctx.known if k.get("status") == "known" and k["id"] not in ctx.known_hits)
+    for n_, m_ in ((1, 1), (2, 2), (3, 3), (3, 2), (3, 4), (5, 5)):
+        check_hooks(ctx, n_, m_)
     child = start_real_pool_child(ctx, ctx.n(14, 150), ctx.n(20, 150))
     fits = ["free", "own"] if ctx.tier == "quick" else ["free", "own", "plain", "free", "own", "free"]
     for j, mode in enumerate(fits):
@@ -1389,6 +1732,11 @@ def run(ctx):
             force_cores = ctx.rng.choice([2, 2, 3, 4])  # pooled histories are the expensive quantifier
         case = gen_case(ctx.rng, force_mode, force_cores)
         one_case(ctx, case, deep=(k % 3 == 0))
+        if len(ctx.failures) >= 40:
+            # the verdict is settled; a broken library can also get slower with every case (free parameters kept in
+            # shared state grow with every sum)
+            ctx.hit("stopped-after-40-failures")
+            break
     collect_real_pool_child(ctx, child, ctx.n(60, 400))
 
 
@@ -1397,7 +1745,9 @@ def replay(ctx, payload):
     if "case" in case and "expr" not in case:
         case = case["case"]
     ctx.notes["flags"] = probe_flags()
-    if "fit" in case and "expr" not in case:
+    if "hooks" in case and "expr" not in case:
+        check_hooks(ctx, case["hooks"]["n"], case["hooks"]["m"])
+    elif "fit" in case and "expr" not in case:
         fit_case(ctx, case["fit"])
     elif case.get("label") == "real-pool" or payload.get("case", {}).get("label") == "real-pool":
         one_case(ctx, case, label="replay")
